@@ -58,6 +58,73 @@ def sudoku_dead_ends(cases=((0, 0, 3), (4, 4, 5), (8, 8, 7), (2, 6, 1))) -> Any:
     return DatabaseGenerator(np.stack(boards))
 
 
+SOKOBAN_OPEN_LEVELS = (
+    # no outer wall ring ('*' = box standing on a target): pushes off the top / left edge, box into box
+    ("  $  .    ",
+     " $@$$     ",
+     "  .       ",
+     "          ",
+     "          ",
+     "     .    ",
+     "          ",
+     "          ",
+     "          ",
+     ".         "),
+    # pushes off the bottom / right edge
+    ("         .",
+     "          ",
+     "          ",
+     "          ",
+     "    .     ",
+     "          ",
+     "          ",
+     "       .  ",
+     "     $$@$ ",
+     "    .  $  "),
+    # a box on a target blocks a pushed box; a box is pushed onto / off a target next to the border
+    (" .        ",
+     " @$*      ",
+     " $        ",
+     " .  $     ",
+     "          ",
+     "     .    ",
+     "          ",
+     "          ",
+     "          ",
+     "          "),
+)
+
+
+def sokoban_open_levels(levels=SOKOBAN_OPEN_LEVELS) -> Any:
+    """Sokoban generator over hand-written 10x10 levels WITHOUT an outer ring of walls (the shipped levels all have
+    one, so the in-grid test of a box destination is never exercised by them)."""
+    import jax.numpy as jnp
+
+    from jumanji.environments.routing.sokoban.generator import Generator
+    from jumanji.environments.routing.sokoban.types import State
+
+    fmap = {"#": 1, ".": 2, "*": 2, "+": 2}
+    vmap_ = {"@": 3, "+": 3, "$": 4, "*": 4}
+    fixed = jnp.asarray([[[fmap.get(c, 0) for c in row] for row in lv] for lv in levels], jnp.uint8)
+    var = jnp.asarray([[[vmap_.get(c, 0) for c in row] for row in lv] for lv in levels], jnp.uint8)
+    for lv in levels:
+        txt = "".join(lv)
+        assert len(lv) == 10 and all(len(r) == 10 for r in lv)
+        assert txt.count("$") + txt.count("*") == 4 and txt.count(".") + txt.count("*") + txt.count("+") == 4
+        assert txt.count("@") + txt.count("+") == 1
+
+    class OpenLevels(Generator):
+        n_instances = len(levels)
+
+        def __call__(self, key: Any) -> Any:
+            i = _pick(key, len(levels))
+            v = var[i]
+            return State(key=key, fixed_grid=fixed[i], variable_grid=v, agent_location=self.get_agent_coordinates(v),
+                         step_count=jnp.array(0, jnp.int32))
+
+    return OpenLevels()
+
+
 def _pick(key: Any, n: int) -> Any:
     import jax
 
